@@ -216,18 +216,6 @@ Theorem C04_arange_count : forall start stop p q, p <> 0 ->
 Proof. exact arange_len_spec. Qed.
 Print Assumptions C04_arange_count.
 
-(* unsigned (size_t) start / stop: the count is NumPy's for increasing ranges; for a decreasing range the unsigned
-   difference wraps and the range comes out empty *)
-Theorem C04_arange_count_unsigned_on_domain : forall start stop p q, p <> 0 -> 0 <= start <= stop -> stop < 2 ^ 64 ->
-  arange_len_unsigned start stop p q = Val (np_arange_len start stop p q).
-Proof. exact arange_len_unsigned_spec. Qed.
-Print Assumptions C04_arange_count_unsigned_on_domain.
-
-Theorem C04_arange_unsigned_decreasing_refuted : exists start stop p,
-  0 <= stop < start /\ p < 0 /\ arange_len_unsigned start stop p 1 <> Val (np_arange_len start stop p 1).
-Proof. exists 5, 0, (-2). split; [lia|]. split; [lia|]. vm_compute. discriminate. Qed.
-Print Assumptions C04_arange_unsigned_decreasing_refuted.
-
 Theorem C04_linspace_element : forall start stop num endpoint i, 1 <= num -> 0 <= i < num ->
   let m := linspace_elem start stop num endpoint i in
   let sp := np_linspace_elem start stop num endpoint i in
@@ -284,7 +272,8 @@ Example C04_regression_entries_offsets :
   /\ shape_diagonal [3;3] (-1) 0 1 = Val [2] /\ diagonal_index 2 [1] (-1) 0 1 = [2;1]
   /\ shape_diagonal [2;3] 4 0 1 = Val [0]
   /\ arange_len 3 0 1 1 = Val 0 /\ linspace_elem 2 5 1 true 0 = (2, 1)
-  /\ arange_len 3 (-4) (-2) 1 = Val 4 /\ arange_elem 3 (-2) 1 3 = -3.
+  /\ arange_len 3 (-4) (-2) 1 = Val 4 /\ arange_elem 3 (-2) 1 3 = -3
+  /\ arange_len 5 0 (-2) 1 = Val 3 /\ arange_len 16777217 16777219 1 1 = Val 2 /\ arange_len 6 1 (-2) 1 = Val 3.
 Proof. witness. Qed.
 Example C04_nonvacuous_concat : np_concat_axis_shape [2;3] [2;2] 1 = Some [2;5] /\ inb [1;4] [2;5]
   /\ concat_axis_index [2;3] [2;2] [1;4] 1 = OpRight [1;1] /\ concat_axis_index [2;3] [2;2] [1;2] 1 = OpLeft [1;2].
